@@ -37,6 +37,10 @@ pub enum Step {
     Ack(usize),
     /// Import a foreign author's log prefix of the given length through `StreamPublisher::import`.
     Import(usize),
+    /// Import one forged operation: it claims this node's own author at a far higher sequence
+    /// number, carries no body and is signed with somebody else's key. It must be rejected without
+    /// any effect on what is replayed.
+    ImportForged,
 }
 
 #[derive(Clone, Debug, Serialize, Deserialize)]
@@ -59,6 +63,10 @@ pub struct Progress {
     pub delivered: Vec<String>,
     /// Ids the application acknowledged successfully (ack() returned Ok).
     pub acked: Vec<String>,
+    /// Ids for which the application called ack() at all (recorded before the call: a crash inside
+    /// the call may or may not leave the acknowledgement durable).
+    #[serde(default)]
+    pub ack_attempted: Vec<String>,
 }
 
 fn node_key(seed: u64) -> p2panda::SigningKey {
@@ -87,6 +95,24 @@ fn foreign_ops(seed: u64, t: Topic, n: usize) -> Vec<Operation> {
         out.push(Operation { hash, header, body: Some(body) });
     }
     out
+}
+
+fn forged_own_author_op(seed: u64, t: Topic) -> Operation {
+    let forger = p2panda::SigningKey::from_bytes(&key_bytes(seed, 3));
+    let mut header = Header {
+        version: 1,
+        verifying_key: node_key(seed).verifying_key(),
+        signature: None,
+        payload_size: 0,
+        payload_hash: None,
+        seq_num: 1000,
+        backlink: Some(Hash::digest(b"forged backlink")),
+        extensions: Extensions::from_topic(t),
+    };
+    header.sign(&forger);
+    header.verifying_key = node_key(seed).verifying_key();
+    let hash = header.hash();
+    Operation { hash, header, body: None }
 }
 
 async fn spawn_node(script: &Script) -> Result<Node, String> {
@@ -186,10 +212,22 @@ pub async fn run_script(script: &Script, progress_path: Option<&str>) -> Result<
                 let _ = tokio::time::timeout(Duration::from_secs(10), fut).await;
                 log.push(format!("step {i}: import of {n} foreign operations"));
             }
+            Step::ImportForged => {
+                let op = forged_own_author_op(script.seed, t);
+                match publisher.import(futures_util::stream::iter(vec![op])).await {
+                    Ok(fut) => {
+                        let _ = tokio::time::timeout(Duration::from_secs(10), fut).await;
+                    }
+                    Err(e) => log.push(format!("step {i}: import of the forged operation refused: {e}")),
+                }
+                log.push(format!("step {i}: import of a forged body-less operation claiming our own author at seq 1000"));
+            }
             Step::Ack(k) => {
                 drain_events(&mut sub, &mut progress, 60, &mut log).await;
                 if let Some(id) = progress.delivered.get(*k).cloned() {
                     let h: Hash = id.parse().map_err(|_| "hash parse".to_string())?;
+                    progress.ack_attempted.push(id.clone());
+                    save(&progress);
                     match sub.ack(h).await {
                         Ok(()) => {
                             progress.acked.push(id.clone());
@@ -362,7 +400,14 @@ impl Property for C15Prop {
                     Step::Publish(format!("m{i}"))
                 }
                 4 => Step::Prune(if ctx::chance("prune.body", 1, 2) { Some(format!("p{i}")) } else { None }),
-                5 => Step::Import(ctx::range("import.n", 1, 3)),
+                5 => {
+                    if ctx::chance("import.forged", 1, 3) {
+                        ctx::fault("forged_import(own author, no body, seq 1000)");
+                        Step::ImportForged
+                    } else {
+                        Step::Import(ctx::range("import.n", 1, 3))
+                    }
+                }
                 _ => {
                     if explicit && publishes > 0 {
                         Step::Ack(ctx::choose("ack.index", publishes))
@@ -461,11 +506,13 @@ impl Property for C15Prop {
             // Phase 2 + 3: read durable state, restart, compare; restart once more.
             let db2 = db.clone();
             let script2 = script.clone();
+            let app_acks: BTreeSet<String> = progress.ack_attempted.iter().chain(progress.acked.iter()).cloned().collect();
             let verdict = std::thread::Builder::new()
                 .name("sim-node".into())
                 .spawn(move || {
                     stepexec::block_on_seeded(seed, async move {
                         let durable = read_durable(&db2, seed).await?;
+                        let app_acks = app_acks;
                         let expected: Vec<String> = durable
                             .entries
                             .iter()
@@ -489,7 +536,21 @@ impl Property for C15Prop {
                         } else {
                             None
                         };
-                        Ok::<_, String>((durable.entries.len(), durable.cursor, expected, replayed, ended, second))
+                        // The application's own view (explicit policy): a stored operation with a
+                        // body is unacknowledged unless the application called ack() for it or for a
+                        // later operation of the same log, or a later stored operation of that log
+                        // has no body (those are acknowledged by the stream itself). This view does
+                        // not read the persisted cursor.
+                        let app_unacked: Vec<String> = durable
+                            .entries
+                            .iter()
+                            .filter(|((a, seq), (_, has_body))| {
+                                *has_body
+                                    && !durable.entries.iter().any(|((a2, s2), (id2, b2))| a2 == a && s2 >= seq && (!*b2 || app_acks.contains(id2)))
+                            })
+                            .map(|(_, (id, _))| id.clone())
+                            .collect();
+                        Ok::<_, String>((durable.entries.len(), durable.cursor, expected, replayed, ended, second, app_unacked))
                     })
                 })
                 .unwrap()
@@ -500,13 +561,21 @@ impl Property for C15Prop {
                 None => "crash at a step boundary".to_string(),
             };
             match verdict {
-                Ok(Ok((stored, cursor, expected, replayed, ended, second))) => {
+                Ok(Ok((stored, cursor, expected, replayed, ended, second, app_unacked))) => {
                     let short = |v: &Vec<String>| v.iter().map(|s| s[..6].to_string()).collect::<Vec<_>>().join(",");
                     ev!("  after crash: {stored} stored, cursor {:?}; expected replay [{}]; replayed [{}] (ReplayEnded: {ended})", cursor.values().collect::<Vec<_>>(), short(&expected), short(&replayed));
                     let exp: BTreeSet<&String> = expected.iter().collect();
                     let got: BTreeSet<&String> = replayed.iter().collect();
                     if let Some(m) = exp.difference(&got).next() {
                         violation("unacknowledged-operation-not-replayed", &site, format!("stored operation {} (with body, above the durable cursor) was not delivered again after restart; replayed [{}], expected [{}]; completed steps {}", &m[..6], short(&replayed), short(&expected), progress.completed));
+                    }
+                    if explicit {
+                        for m in &app_unacked {
+                            if !got.contains(m) {
+                                violation("unacknowledged-operation-not-replayed", &format!("{site} (application view)"), format!("stored operation {} has a body and neither it nor a later operation of its log was ever acknowledged by the application, yet it was not delivered again after restart; replayed [{}]; completed steps {}", &m[..6], short(&replayed), progress.completed));
+                                break;
+                            }
+                        }
                     }
                     if let Some(m) = got.difference(&exp).next() {
                         let acked = progress.acked.contains(m);
